@@ -143,10 +143,10 @@ func Family(tier string, extraLens []int) []tmpl.Env {
 
 // SkelOpts selects what a property takes from the skeleton analysis.
 type SkelOpts struct {
-	Rules        []string                 // rule prefixes that belong to the property
-	Env          func(e tmpl.Env) bool    // environments that matter (nil: all)
-	TypeErrIsOwn bool                     // a skeleton that does not type-check is this property's violation (C01) rather than "undecided"
-	Notes        []string                 // interpreter note rules that belong to the property (G-RENDER, H-PANIC)
+	Rules        []string              // rule prefixes that belong to the property
+	Env          func(e tmpl.Env) bool // environments that matter (nil: all)
+	TypeErrIsOwn bool                  // a skeleton that does not type-check is this property's violation (C01) rather than "undecided"
+	Notes        []string              // interpreter note rules that belong to the property (G-RENDER, H-PANIC)
 	KeepOb       func(o skel.Ob, e tmpl.Env) bool
 	Formatters   []string // formatter values to derive with (default: only "")
 	NoExpand     bool     // only the generator-side derivation is needed
@@ -164,12 +164,12 @@ func hasPrefix(s string, ps []string) bool {
 type skelOut struct {
 	skip    bool
 	derived []*tmpl.Derived
-	env    tmpl.Env
-	sk     *tmpl.Skeleton
-	unit   *skel.Unit
-	res    *skel.Result
-	typed  bool
-	err    error
+	env     tmpl.Env
+	sk      *tmpl.Skeleton
+	unit    *skel.Unit
+	res     *skel.Result
+	typed   bool
+	err     error
 }
 
 // RunSkeletons expands the template over the family and feeds the rule
